@@ -12,11 +12,15 @@ package main
 // Serve loop over real loopback sockets.
 
 import (
+	"encoding/hex"
+	"encoding/json"
 	"fmt"
 	"math/rand/v2"
 	"net"
 	"net/netip"
 	"os"
+	"sort"
+	"syscall"
 	"time"
 
 	"github.com/gopacket/gopacket"
@@ -437,11 +441,23 @@ func c44NewServer(r *mon.Run, g *c44Gen, disp bool, v6 bool) (*c44Server, func()
 	return s, func() { conn.Close() }
 }
 
+type c44Fed struct {
+	Raw   string `json:"raw"`
+	Outer string `json:"outer"`
+	Prev  string `json:"prev"`
+}
+
+type c44Svc struct {
+	IA   string `json:"ia"`
+	Svc  uint16 `json:"svc"`
+	Addr string `json:"addr"`
+}
+
 type c44Witness struct {
 	Server   string   `json:"server"`
 	Disp     bool     `json:"dispatcher_function"`
-	Svc      []string `json:"service_addresses"`
-	Sequence []string `json:"sequence_raw_outer_prev"` // the packets fed to this server so far (most recent last)
+	Svc      []c44Svc `json:"service_addresses"`
+	Sequence []c44Fed `json:"sequence"` // the last packets fed to this server (most recent last = the judged one)
 	Gen      string   `json:"generator"`
 	Raw      string   `json:"raw"`
 	Outer    string   `json:"outer_destination"`
@@ -461,14 +477,19 @@ func checkC44(r *mon.Run) {
 		"the reply path is judged only if the request path is well formed (current pointers inside the path); reserved bits are ignored",
 		"loopback delivery on Linux is synchronous: a datagram written by the shim before a marker datagram is in the receiver's queue when the marker has arrived",
 	}
+	if p := r.ReplayFile(); p != "" {
+		c44Replay(r, p)
+		return
+	}
 	g := &c44Gen{rng: r.Rand("c44")}
-	nServers := r.Pick(150, 1500)
+	nServers := r.Pick(400, 4000)
 	perServer := r.Pick(200, 400)
-	svcStrings := func(s *c44Server) []string {
-		var out []string
+	svcStrings := func(s *c44Server) []c44Svc {
+		var out []c44Svc
 		for k, v := range s.svc {
-			out = append(out, fmt.Sprintf("%v,%v=%v", addr.IA(k.IA), addr.SVC(k.Svc), v))
+			out = append(out, c44Svc{addr.IA(k.IA).String(), k.Svc, v.String()})
 		}
+		sort.Slice(out, func(i, j int) bool { return out[i].IA+fmt.Sprint(out[i].Svc) < out[j].IA+fmt.Sprint(out[j].Svc) })
 		return out
 	}
 	table := map[string]int{}
@@ -478,7 +499,7 @@ func checkC44(r *mon.Run) {
 		if s == nil {
 			continue
 		}
-		var seq []string
+		var seq []c44Fed
 		for pi := 0; pi < perServer; pi++ {
 			raw, label := g.packet(s.ias)
 			outer, rel := g.outerFor(raw, disp, s.svc)
@@ -489,7 +510,7 @@ func checkC44(r *mon.Run) {
 			var next netip.AddrPort
 			var err error
 			pv, stack := mon.Try(func() { out, next, err = s.srv.VerifProcessMsgNextHop(fed, outer, prev) })
-			seq = append(seq, fmt.Sprintf("%x %v %v", raw, outer, prev))
+			seq = append(append([]c44Fed(nil), seq...), c44Fed{mon.Hex(raw), outer.String(), prev.String()})
 			if len(seq) > 8 {
 				seq = seq[1:]
 			}
@@ -598,7 +619,29 @@ func c44Sockets(r *mon.Run, g *c44Gen) {
 		}
 		return buf[:n], true
 	}
-	n := r.Pick(600, 6000)
+	// poll reads a datagram that is already queued, without waiting (a read
+	// deadline would be racy: an expired deadline is reported before the
+	// queue is looked at).
+	poll := func(c *net.UDPConn) ([]byte, bool) {
+		rc, err := c.SyscallConn()
+		if err != nil {
+			return nil, false
+		}
+		buf := make([]byte, 2048)
+		n := -1
+		_ = rc.Read(func(fd uintptr) bool {
+			k, _, e := syscall.Recvfrom(int(fd), buf, syscall.MSG_DONTWAIT)
+			if e == nil {
+				n = k
+			}
+			return true
+		})
+		if n < 0 {
+			return nil, false
+		}
+		return buf[:n], true
+	}
+	n := r.Pick(2000, 20000)
 	for i := 0; i < n; i++ {
 		// the probe: addressed (SCION) to application B
 		h := g.hdr(addr.HostIP(ipB))
@@ -632,7 +675,11 @@ func c44Sockets(r *mon.Run, g *c44Gen) {
 			r.Inconclusive("socket-marker-lost")
 			continue
 		}
-		atB, okB := recv(appB, time.Millisecond)
+		atB, okB := poll(appB)
+		if okB && string(atB) != string(probe) {
+			r.Inconclusive("socket-unexpected-datagram")
+			continue
+		}
 		w := map[string]any{"phase": "sockets", "probe": mon.Hex(probe), "kind": kind, "sent_to_outer": outer.String(), "scion_destination": ipB.String(), "arrived_at_b": okB}
 		switch {
 		case hostile && okB:
@@ -659,13 +706,13 @@ func c44Sockets(r *mon.Run, g *c44Gen) {
 				r.Inconclusive("socket-marker-lost")
 				continue
 			}
-			rep, okR := recv(br, time.Millisecond)
+			rep, okR := poll(br)
 			if !okR {
 				r.Class("socket/echo-request/not-answered")
 				continue
 			}
-			_, leakA := recv(appA, time.Millisecond)
-			_, leakB := recv(appB, time.Millisecond)
+			_, leakA := poll(appA)
+			_, leakB := poll(appB)
 			p, perr := shimref.Parse(rep)
 			switch {
 			case leakA || leakB:
@@ -678,4 +725,63 @@ func c44Sockets(r *mon.Run, g *c44Gen) {
 			}
 		}
 	}
+}
+
+// c44Replay feeds the packet sequence of a replay file to a fresh server with
+// the recorded configuration and judges the last packet.
+func c44Replay(r *mon.Run, file string) {
+	b, err := os.ReadFile(file)
+	if err != nil {
+		fmt.Fprintln(os.Stderr, "replay:", err)
+		os.Exit(2)
+	}
+	var f struct {
+		Witness c44Witness `json:"witness"`
+	}
+	if err := json.Unmarshal(b, &f); err != nil || len(f.Witness.Sequence) == 0 {
+		fmt.Fprintln(os.Stderr, "replay: no packet sequence in", file, err)
+		os.Exit(2)
+	}
+	w := f.Witness
+	conn, err := net.ListenUDP("udp", &net.UDPAddr{IP: net.IPv4(127, 0, 0, 1)})
+	if err != nil {
+		panic(err)
+	}
+	defer conn.Close()
+	m := map[addr.Addr]netip.AddrPort{}
+	svc := map[shimref.SvcKey]netip.AddrPort{}
+	for _, e := range w.Svc {
+		ia, err1 := addr.ParseIA(e.IA)
+		ap, err2 := netip.ParseAddrPort(e.Addr)
+		if err1 != nil || err2 != nil {
+			continue
+		}
+		m[addr.Addr{IA: ia, Host: addr.HostSVC(addr.SVC(e.Svc))}] = ap
+		svc[shimref.SvcKey{IA: uint64(ia), Svc: e.Svc}] = ap
+	}
+	srv := dispatcher.NewServer(w.Disp, m, conn)
+	for i, fed := range w.Sequence {
+		raw, _ := hex.DecodeString(fed.Raw)
+		outer, _ := netip.ParseAddr(fed.Outer) // "invalid IP" parses to the zero Addr
+		prev, _ := netip.ParseAddrPort(fed.Prev)
+		var out []byte
+		var next netip.AddrPort
+		pv, stack := mon.Try(func() { out, next, _ = srv.VerifProcessMsgNextHop(append([]byte(nil), raw...), outer, prev) })
+		if i < len(w.Sequence)-1 {
+			continue
+		}
+		r.Eval(1)
+		w.NextHop = next.String()
+		if pv != nil {
+			r.Violation("C44:panic:"+mon.PanicSite(stack), fmt.Sprintf("panic: %v", pv), w)
+			break
+		}
+		kind, outcome, fs := shimref.Judge(shimref.Input{Raw: raw, Outer: outer, PrevHop: prev, IsDispatcher: w.Disp, Svc: svc}, next, out)
+		r.Class("replay/" + kind + "|" + outcome)
+		for _, x := range fs {
+			r.Violation(x.Key, x.What, w)
+		}
+	}
+	r.Class("replay")
+	r.Sample(map[string]any{"replayed": file})
 }
